@@ -1,6 +1,7 @@
 package main
 
 import (
+	"go/token"
 	"fmt"
 	"go/ast"
 	"go/types"
@@ -358,7 +359,8 @@ func ruleR17_4(w *World, r *Report) {
 				if !ok {
 					return
 				}
-				if h := call.Call.StaticCallee(); h != nil && flattenable[h] && depth < 4 {
+				// a new helper, or a local closure of this function, is read with the arguments of this call
+				if h := call.Call.StaticCallee(); h != nil && (flattenable[h] || h.Parent() == g) && depth < 4 {
 					env2 := map[ssa.Value]ssa.Value{}
 					for k, v := range env {
 						env2[k] = v
@@ -366,6 +368,13 @@ func ruleR17_4(w *World, r *Report) {
 					for i, prm := range h.Params {
 						if i < len(call.Call.Args) {
 							env2[prm] = subst(call.Call.Args[i], env)
+						}
+					}
+					if mc, isMC := call.Call.Value.(*ssa.MakeClosure); isMC {
+						for i, fv := range h.FreeVars {
+							if i < len(mc.Bindings) {
+								env2[fv] = subst(mc.Bindings[i], env)
+							}
 						}
 					}
 					scan(h, env2, depth+1)
@@ -428,6 +437,20 @@ func ruleR17_4(w *World, r *Report) {
 				}
 				sort.Strings(shown)
 				good := false
+				// a parameter captured by a closure lives in a cell: the value is what was stored there (once)
+				if ld, isLd := val.(*ssa.UnOp); isLd && ld.Op == token.MUL {
+					if cell, isCell := subst(ld.X, env).(*ssa.Alloc); isCell && cell.Referrers() != nil {
+						var stored []ssa.Value
+						for _, ref := range *cell.Referrers() {
+							if st, isSt := ref.(*ssa.Store); isSt && st.Addr == ssa.Value(cell) {
+								stored = append(stored, st.Val)
+							}
+						}
+						if len(stored) == 1 {
+							val = stored[0]
+						}
+					}
+				}
 				if prm, isP := val.(*ssa.Parameter); isP && prm.Parent() == root && prm.Name() == "collectionNum" {
 					good = true
 				}
